@@ -683,6 +683,10 @@ func (g *GcsEmu) finishUpload(ctx context.Context, baseUrl HttpBaseUrl, obj *sto
 	if err != nil {
 		return nil, fmt.Errorf("failed to get meta for %s/%s: %w", bucket, filename, err)
 	}
+	if meta == nil {
+		// the object was deleted again after the key lock was released
+		return nil, fmtErrorfCode(http.StatusNotFound, "%s/%s not found", bucket, filename)
+	}
 	return meta, nil
 }
 
